@@ -32,7 +32,7 @@ func init() {
 	}})
 }
 
-func (p *c17) NumCases(tier string, seed int64) int { return tierN(tier, 400, 10000) }
+func (p *c17) NumCases(tier string, seed int64) int { return tierN(tier, 1200, 30000) }
 
 type c17Ctx struct{ allow bool }
 
